@@ -19,6 +19,7 @@ from pydiverse.transform._internal.util.warnings import warn_non_standard
 
 class SqliteImpl(SqlImpl):
     backend_name = "sqlite"
+    has_duration_literals = False
 
     @classmethod
     def inf(cls):
